@@ -92,6 +92,49 @@ pub fn climb_starts(cx: &Ctx, count: usize, salt: u64) -> Vec<Xs> {
     v
 }
 
+/// The same envelope for estimators built through Extend (by value / by reference, in
+/// chunks) and FromIterator — stronger than C01 asks for (which speaks of add), but these
+/// paths are required to be equivalent to the add loop (C20), so it cannot alarm falsely.
+pub struct ExtendPath;
+impl Check for ExtendPath {
+    type Case = super::c02::Chunked;
+    fn name(&self) -> &'static str {
+        "variance_extend_chunks"
+    }
+    fn fp(&self, c: &Self::Case, h: &mut Fp) {
+        h.fs(&c.xs).us(&c.cuts);
+    }
+    fn test(&self, c: &Self::Case, o: &mut Obs) -> TestResult {
+        use crate::types::Uni;
+        let ex = match c01_gate(&c.xs, 2, 1, o) {
+            Some(e) => e,
+            None => return Ok(()),
+        };
+        let n = c.xs.len();
+        let mut b = vec![0usize];
+        b.extend(c.cuts.iter().map(|&k| k.min(n)));
+        b.push(n);
+        b.sort();
+        let (mut v, mut m) = (Variance::new(), Mean::new());
+        for (k, w) in b.windows(2).enumerate() {
+            let seg = &c.xs[w[0]..w[1]];
+            if k % 2 == 0 {
+                v.extend(seg.iter());
+                m.extend(seg.iter().copied());
+            } else {
+                v.extend(seg.iter().copied());
+                m.extend(seg.iter());
+            }
+        }
+        o.nontrivial = ex.n >= 2 && !c.cuts.is_empty();
+        o.classf(kappa_bucket(ex.kappa()));
+        v.judge(&ex, o)?;
+        m.judge(&ex, o)?;
+        let vc: Variance = c.xs.iter().collect();
+        vc.judge(&ex, o)
+    }
+}
+
 pub fn run(cx: &Ctx) {
     cx.set_rule("cases = data sets built by construction inside the C01 domain (13 shapes x 6 orderings x scale 10^U(-15,15) x offset up to 10^12 spreads), fed one observation at a time to Mean and to Variance and judged accessor by accessor against exact rational statistics with the DESIGN.md 4.1 envelopes; plus a fixed family of textbook-killer data (offset 1e9..3e11 spreads); thorough adds 1e5/1e6-element data and hill-climbing on error/envelope. Non-trivial = n >= 2 with non-zero spread; distinct = hash of (check, exact bit patterns of the sequence)");
     cx.assume("exact oracle: hand-written big-integer arithmetic + double-double final division (self-tested against Python fractions)");
@@ -104,6 +147,17 @@ pub fn run(cx: &Ctx) {
     cx.label("generated");
     cx.run_pt(&mean_check(), cases, w, strat, bounds);
     cx.run_pt(&var_check(), cases, w, strat, bounds);
+    cx.label("extend");
+    let ext = move || (gen::dataset(1, 3000, 3000, 11.9), gen::cut_mode()).prop_map(|(xs, cm)| {
+        let cuts = gen::make_cuts(&cm, xs.len());
+        super::c02::Chunked { xs, cuts, merges: vec![] }
+    });
+    cx.run_pt(&ExtendPath, cx.by(600, 8000), w, ext, "Variance/Mean built by extend (value/reference alternating) over random chunkings, and by collect");
+    let kext: Vec<super::c02::Chunked> = killers().into_iter().flat_map(|k| {
+        let n = k.xs.len();
+        vec![super::c02::Chunked { xs: k.xs.clone(), cuts: vec![], merges: vec![] }, super::c02::Chunked { xs: k.xs, cuts: vec![n / 2], merges: vec![] }]
+    }).collect();
+    cx.run_list(&ExtendPath, kext, "textbook-killer family through extend (whole and in two pieces)");
     cx.label("textbook-killers");
     cx.run_list(&var_check(), killers(), "textbook-killer family: offset/spread 1e9..3e11, n 4..1000, 3 scales");
     cx.run_list(&mean_check(), killers(), "textbook-killer family");
@@ -125,6 +179,7 @@ pub fn replay(check: &str, case: &serde_json::Value) -> Option<Result<(), String
     match check {
         "mean_stream" => Some(replay_case(&mean_check(), case)),
         "variance_stream" => Some(replay_case(&var_check(), case)),
+        "variance_extend_chunks" => Some(replay_case(&ExtendPath, case)),
         _ => None,
     }
 }
